@@ -7,12 +7,14 @@ From VQ Require Import Glue.Pin_inv_euclid Glue.Pin_inv_cosine Glue.Pin_inv_vq G
 From VQ Require Import Glue.Pin_npinit_vq Glue.Pin_npinit_fsq Glue.Pin_npinit_lfq Glue.Pin_npinit_rfsq Glue.Pin_npinit_lq.
 Import ListNotations.
 
+(* implicit *)
 Theorem C15_roundtrip :
   forall (V : Type) (inv : list entry) (ctor s : @store V),
        @ctor_invariant V inv ctor s -> forall n : string, @rebuild V inv ctor (@persist V inv s) n = s n.
 Proof. exact (@roundtrip). Qed.
 Print Assumptions C15_roundtrip.
 
+(* implicit *)
 Theorem C15_invariant_preserved_by_every_history :
   forall (V : Type) (inv : list entry) (fw : string -> bool) (ctor : @store V) 
          (ps : list (@sop V)) (s : @store V),
@@ -22,6 +24,7 @@ Theorem C15_invariant_preserved_by_every_history :
 Proof. exact (@ctor_invariant_preserved). Qed.
 Print Assumptions C15_invariant_preserved_by_every_history.
 
+(* implicit *)
 Theorem C15_roundtrip_after_any_history :
   forall (V : Type) (inv : list entry) (fw : string -> bool) (ctor : @store V) (ps : list (@sop V)),
        (forall n : string, fw n = true -> is_persistent inv n = true) ->
@@ -31,12 +34,14 @@ Theorem C15_roundtrip_after_any_history :
 Proof. exact (@roundtrip_after_any_history). Qed.
 Print Assumptions C15_roundtrip_after_any_history.
 
+(* implicit *)
 Theorem C15_same_store_same_future :
   forall (V : Type) (inv : list entry) (fw : string -> bool) (s s' : @store V) (ps : list (@sop V)),
        (forall n : string, s n = s' n) -> forall n : string, @srun V inv fw s ps n = @srun V inv fw s' ps n.
 Proof. exact (@same_store_same_future). Qed.
 Print Assumptions C15_same_store_same_future.
 
+(* implicit *)
 Theorem C15_nonpersistent_written_entry_breaks_roundtrip :
   forall (V : Type) (inv : list entry) (ctor : @store V) (n : string) (v v0 : V),
        is_persistent inv n = false ->
@@ -116,60 +121,36 @@ Proof. exact (@residual_wrappers_own_no_state). Qed.
 Print Assumptions C15_wrappers_own_no_state.
 
 Theorem C15_nonpersistent_init_vq :
-  npinit_vq.npinit_vq = ["zero=torch.tensor(0.0)"].
+  npinit_vq.npinit_vq = pinned_npinit_vq.
 Proof. exact (@pin_npinit_vq). Qed.
 Print Assumptions C15_nonpersistent_init_vq.
 
 Theorem C15_nonpersistent_init_fsq :
-  npinit_fsq.npinit_fsq =
-       ["_basis=_basis"; "_levels=_levels"; "implicit_codebook=implicit_codebook";
-        "local _levels=torch.tensor(levels, dtype=int32)";
-        "local _basis=torch.cumprod(torch.tensor([1] + levels[:-1]), dim=0, dtype=int32)";
-        "local implicit_codebook=self._indices_to_codes(torch.arange(self.codebook_size))";
-        "local self.codebook_size=self._levels.prod().item()"].
+  npinit_fsq.npinit_fsq = pinned_npinit_fsq.
 Proof. exact (@pin_npinit_fsq). Qed.
 Print Assumptions C15_nonpersistent_init_fsq.
 
 Theorem C15_nonpersistent_init_lfq :
-  npinit_lfq.npinit_lfq =
-       ["codebook=codebook.float()"; "zero=torch.tensor(0.0)"; "local codebook=self.bits_to_codes(bits)";
-        "local bits=(all_codes[..., None].int() & self.mask != 0).float()";
-        "local all_codes=torch.arange(codebook_size)"].
+  npinit_lfq.npinit_lfq = pinned_npinit_lfq.
 Proof. exact (@pin_npinit_lfq). Qed.
 Print Assumptions C15_nonpersistent_init_lfq.
 
 Theorem C15_nonpersistent_init_rfsq :
-  npinit_rfsq.npinit_rfsq = ["scales=torch.stack(scales)"; "local levels_tensor=torch.Tensor(levels)"].
+  npinit_rfsq.npinit_rfsq = pinned_npinit_rfsq.
 Proof. exact (@pin_npinit_rfsq). Qed.
 Print Assumptions C15_nonpersistent_init_rfsq.
 
 Theorem C15_nonpersistent_init_latent :
-  npinit_lq.npinit_lq =
-       ["_basis=_basis"; "_levels=_levels";
-        "commitment_loss_weight=torch.tensor(commitment_loss_weight, dtype=torch.float32)";
-        "implicit_codebook=implicit_codebook";
-        "quantization_loss_weight=torch.tensor(quantization_loss_weight, dtype=torch.float32)";
-        "local _levels=torch.tensor(levels, dtype=int32)";
-        "local _basis=torch.cumprod(torch.concat([torch.tensor([1], dtype=int32), _levels[:-1]], dim=0), dim=0)";
-        "local implicit_codebook=self.indices_to_codes(torch.arange(self.codebook_size), project_out=False)";
-        "local self.codebook_size=self._levels.prod().item()"].
+  npinit_lq.npinit_lq = pinned_npinit_lq.
 Proof. exact (@pin_npinit_lq). Qed.
 Print Assumptions C15_nonpersistent_init_latent.
 
 Theorem C15_inventory_euclid :
-  inv_euclid.inv_euclid =
-       [("batch_mean", Buffer, true); ("batch_variance", Buffer, true); ("cluster_size", Buffer, true);
-        ("codebook_mean", Buffer, true); ("codebook_mean_needs_init", Buffer, true);
-        ("codebook_variance", Buffer, true); ("codebook_variance_needs_init", Buffer, true);
-        ("embed", Buffer, true); ("embed", Param, true); ("embed_avg", Buffer, true);
-        ("initted", Buffer, true)].
+  inv_euclid.inv_euclid = pinned_inv_euclid.
 Proof. exact (@pin_inv_euclid). Qed.
 Print Assumptions C15_inventory_euclid.
 
 Theorem C15_inventory_cosine :
-  inv_cosine.inv_cosine =
-       [("cluster_size", Buffer, true); ("embed", Buffer, true); ("embed", Param, true);
-        ("embed_avg", Buffer, true); ("initted", Buffer, true)].
+  inv_cosine.inv_cosine = pinned_inv_cosine.
 Proof. exact (@pin_inv_cosine). Qed.
 Print Assumptions C15_inventory_cosine.
-
